@@ -1983,6 +1983,289 @@ def run_s6(ctx):
                    {"stream": "S6.scatter", "sigma": {k: str(v) for k, v in sig.items()}}, py)
 
 
+# ------------------------------------------------------------------------------------------------
+# S7: Delta / Independent / MarkovProduct / Scatter eager_subs vs their executable Lean models
+# ------------------------------------------------------------------------------------------------
+
+def s7_delta_cases(rng, n_cases):
+    """Yield (delta funsor, delta wire, sigma [(key, funsor value)], description)."""
+    for _ in range(n_cases):
+        has_b = rng.random() < 0.75
+        n = rng.choice([2, 3]) if has_b else 1
+        bins = OrderedDict(i=Bint[n]) if has_b else OrderedDict()
+        names = rng.choice([["v"], ["v"], ["v", "u"], ["u", "v"]])
+        terms, info = [], {}
+        for nm in names:
+            sh = rng.choice([(), (), (2,)])
+            pb = bins if rng.random() < 0.8 else OrderedDict()
+            lb = bins if rng.random() < 0.8 else OrderedDict()
+            pts = _dyarr(rng, tuple(d.size for d in pb.values()) + sh, -1, 1)
+            ld = _dyarr(rng, tuple(d.size for d in lb.values()), -4, 4)
+            terms.append((nm, (Tensor(pts, pb), Tensor(ld, lb))))
+            info[nm] = (sh, pts, bool(pb))
+        d = Delta(tuple(terms))
+        sigma = []
+        for nm in names:
+            sh, pts, batched = info[nm]
+            kind = rng.choice(["none", "hit", "hit", "miss", "tensor", "tensor-own-batch", "rename-fresh", "rename-other", "rename-other"])
+            if kind == "none":
+                continue
+            if kind in ("hit", "miss"):
+                a = np.array(pts[rng.randrange(n)] if batched else pts, dtype=np.float64)
+                sigma.append((nm, Tensor(a + (0.25 if kind == "miss" else 0.0)), kind))
+            elif kind.startswith("tensor"):
+                bn, bs = ("i", n) if (kind == "tensor-own-batch" and has_b) else ("m", 2)
+                a = np.stack([np.array(pts[rng.randrange(n)] if batched else pts, dtype=np.float64) + (0.25 if rng.random() < 0.3 else 0.0)
+                              for _ in range(bs)])
+                sigma.append((nm, Tensor(a, OrderedDict([(bn, Bint[bs])])), kind))
+            else:
+                others = [x for x in ("v", "u") if x != nm]
+                tgt = "w" if kind == "rename-fresh" else others[0]
+                sigma.append((nm, Variable(tgt, Reals[sh] if sh else Real), kind))
+        if has_b:
+            kind = rng.choice(["none", "none", "int", "rename", "rename-m"])
+            if kind == "int":
+                sigma.append(("i", Number(rng.randrange(n), n), "int"))
+            elif kind != "none":
+                sigma.append(("i", Variable("k" if kind == "rename" else "m", Bint[n]), kind))
+        if not sigma:
+            continue
+        rng.shuffle(sigma)
+        yield d, sigma, {"stream": "S7.delta", "names": names, "batch": n if has_b else 0,
+                         "sigma": [(k, kind) for k, _, kind in sigma]}
+
+
+def s7_value_py(v):
+    if isinstance(v, Variable):
+        return f"Variable({v.name!r}, {('Bint[%d]' % v.output.size) if v.output.dtype != 'real' else ('Reals[' + ', '.join(map(str, v.output.shape)) + ']' if v.output.shape else 'Real')})"
+    if isinstance(v, Number):
+        return f"Number({v.data!r}, {v.dtype!r})"
+    ins = ", ".join(f"({k!r}, Bint[{d.size}])" for k, d in v.inputs.items())
+    return f"Tensor({_arr_py(np.asarray(v.data))}, OrderedDict([{ins}]), {v.dtype!r})"
+
+
+def run_s7(ctx):
+    from funsor.terms import Independent, Scatter
+    from funsor.sum_product import MarkovProduct
+    rng = ctx.rng
+    reqs, meta = [], []
+    # ---------------- Delta
+    for d, sigma, wit in s7_delta_cases(rng, 300 if ctx.tier == "quick" else 4000):
+        sigma = [t for t in sigma if t[0] in d.inputs]
+        if not sigma:
+            continue
+        try:
+            with reflect:
+                d_wire = ser.to_wire(Delta(d.terms))
+                sig_wire = [[Q(k), ser.to_wire(v)] for k, v, _ in sigma]
+        except ser.Unsupported:
+            ctx.count("S7:delta:beyond-wire")
+            continue
+        exp = OrderedDict((k, dom) for k, dom in d.inputs.items() if k not in [k_ for k_, _, _ in sigma])
+        ill = False
+        for k, v, _ in sigma:
+            if v.output != d.inputs[k]:
+                ill = True
+            for nm, dom in v.inputs.items():
+                if exp.setdefault(nm, dom) != dom:
+                    ill = True
+        if ill:
+            ctx.count("S7:delta:ill-typed")
+            continue
+        ins = sorted((k, int(dom.size)) for k, dom in exp.items() if dom.dtype != "real")
+        reals = sorted(k for k, dom in list(exp.items()) + list(d.inputs.items()) if dom.dtype == "real")
+        # sample points of the remaining real inputs: one that can hit (a point of the delta) and one that misses
+        free_reals = [(k, tuple(dom.shape)) for k, dom in exp.items() if dom.dtype == "real"]
+        renvs = []
+        for shift in (0.0, 0.25):
+            e = {}
+            for k, sh in free_reals:
+                src = None
+                for nm, (pt, _) in d.terms:
+                    if tuple(pt.output.shape) == sh:
+                        src = np.asarray(pt.data).reshape((-1,) + sh)[0]
+                e[k] = (np.array(src, dtype=np.float64) if src is not None else np.zeros(sh)) + shift
+                if not sh:
+                    e[k] = float(e[k])
+            renvs.append(e)
+            if not free_reals:
+                break
+        py = (S5_HEADER + "g = Delta((" + ", ".join(f"({nm!r}, ({s7_value_py(pt)}, {s7_value_py(ld)}))" for nm, (pt, ld) in d.terms) + ",))\n" +
+              "r = g(**{" + ", ".join(f"{k!r}: {s7_value_py(v)}" for k, v, _ in sigma) + "})\nprint(r.inputs, r)\nFAILS = True\n")
+        try:
+            r = d(**{k: v for k, v, _ in sigma})
+            status = "value"
+        except DECLINE as ex:
+            r, status = None, "declined"
+            ctx.count(f"S7:delta:declined:{type(ex).__name__}")
+        if r is not None:
+            bad = [k for k, dom in r.inputs.items() if k not in exp or exp[k] != dom]
+            if bad:
+                ctx.fail("input", "C04.S7.delta.inputs", witness=wit, expected=str({k: str(v) for k, v in exp.items()}),
+                         got=str({k: str(v) for k, v in r.inputs.items()}), python=py)
+                continue
+        for renv in renvs:
+            envw = sx(ser.env_wire({k: np.asarray(v) for k, v in renv.items()}))
+            reqs.append(f"C04 denote {sx(['subs', d_wire, sig_wire])} {sx(ser.ins_wire(ins))} {envw}")
+            meta.append(("delta-spec", wit, py, r, ins, renv))
+            reqs.append(f"C04 deltasubs {sx([Q(x) for x in reals])} {sx(d_wire)} {sx(sig_wire)} {sx(ser.ins_wire(ins))} {envw}")
+            meta.append(("delta-model", wit, py, r, ins, renv))
+    # ---------------- Independent
+    for n, how in itertools.product([1, 2, 3], ["eager", "lazy"]):
+        a = _dyarr(rng, (n, 2)); b = _dyarr(rng, (n,))
+        mk = lambda: Independent(Tensor(a, OrderedDict(i=Bint[n], k=Bint[2])) * Variable("x_i", Real) + Tensor(b, OrderedDict(i=Bint[n])),
+                                 "x", "i", "x_i")
+        with INTERPS[how]:
+            f = mk()
+        with reflect:
+            f_wire = ser.to_wire(mk())
+        arr = _dyarr(rng, (n,)); arr2 = _dyarr(rng, (2, n)); arr3 = _dyarr(rng, (3, n))
+        vals = [("array", lambda: Tensor(arr)), ("tensor-own-k", lambda: Tensor(arr2, OrderedDict(k=Bint[2]))),
+                ("tensor-fresh", lambda: Tensor(arr3, OrderedDict(m=Bint[3]))), ("rename", lambda: Variable("y", Reals[n])),
+                ("rename-x", lambda: Variable("x", Reals[n])), ("affine", lambda: Variable("y", Reals[n]) * 2.0),
+                ("lazy-sum", lambda: Variable("y", Reals[n]) + Tensor(arr2, OrderedDict(k=Bint[2])))]
+        for (kind, vth), ksub in itertools.product(vals, [None, 1, "m"]):
+            kth = (lambda: Number(1, 2)) if ksub == 1 else (lambda: Variable("m", Bint[2]))
+            sig_th = [("x", vth)] + ([] if ksub is None else [("k", kth)])
+            if rng.random() < 0.5:
+                sig_th.reverse()
+            sig = [(k_, th()) for k_, th in sig_th]
+            try:
+                with reflect:
+                    sig_wire = [[Q(k_), ser.to_wire(th())] for k_, th in sig_th]
+            except ser.Unsupported:
+                ctx.count("S7:independent:beyond-wire")
+                continue
+            exp = OrderedDict((k_, dom) for k_, dom in f.inputs.items() if k_ not in dict(sig))
+            ill = False
+            for k_, v_ in sig:
+                for nm, dom in v_.inputs.items():
+                    if exp.setdefault(nm, dom) != dom:
+                        ill = True
+            if ill:
+                ctx.count("S7:independent:ill-typed")
+                continue
+            ins = sorted((k_, int(dom.size)) for k_, dom in exp.items() if dom.dtype != "real")
+            renv = {k_: _dyarr(rng, tuple(dom.shape), -4, 4) for k_, dom in exp.items() if dom.dtype == "real"}
+            wit = {"stream": "S7.independent", "n": n, "built_under": how, "x": kind, "k": ksub}
+            py = S5_HEADER + f"# Independent(T[i,k]*x_i + T[i], 'x','i','x_i') built under {how}; sigma x:={kind}, k:={ksub}\nFAILS = True\n"
+            try:
+                r = f(**dict(sig))
+            except DECLINE as ex:
+                r = None
+                ctx.count(f"S7:independent:declined:{type(ex).__name__}")
+            envw = sx(ser.env_wire(renv))
+            reqs.append(f"C04 denote {sx(['subs', f_wire, sig_wire])} {sx(ser.ins_wire(ins))} {envw}")
+            meta.append(("indep-spec", wit, py, r, ins, renv))
+            reqs.append(f"C04 indepsubs {sx(f_wire)} {sx(sig_wire)} {sx(ser.ins_wire(ins))} {envw}")
+            meta.append(("indep-model", wit, py, r, ins, renv))
+    # ---------------- MarkovProduct / Scatter: the decision eager_subs takes, exhaustively over sigma-shapes
+    trans = Tensor(_dyarr(rng, (2, 2, 2), 0, 3), OrderedDict(t=Bint[2], a=Bint[2], b=Bint[2]))
+    with lazy:
+        mp = MarkovProduct(ops.add, ops.mul, trans, Variable("t", Bint[2]), frozenset({("a", "b")}),
+                           frozenset({("a", "a"), ("b", "b")}))
+        sc = Scatter(ops.add, (("a", Tensor(np.array([1, 0, 1]), OrderedDict(j=Bint[3]), 2)), ("b", Tensor(np.array([0, 1, 1]), OrderedDict(j=Bint[3]), 2))),
+                     Tensor(_dyarr(rng, (3,)), OrderedDict(j=Bint[3])) + Variable("x", Real), frozenset({Variable("j", Bint[3])}))
+    opts = [None, "a", "b", "c", 0, "T"]
+    for node, label in ((mp, "markov"), (sc, "scatter")):
+        visible = {v: k for k, v in node.step_names.items()} if label == "markov" else {k: k for k, _ in node.subs}
+        sn = [(b_, v_) for v_, b_ in visible.items()]
+        for va, vb, flip in itertools.product(opts, opts, [False, True]):
+            pairs = [(k, v) for k, v in (("a", va), ("b", vb)) if v is not None]
+            if not pairs:
+                continue
+            if flip:
+                pairs.reverse()
+            fv = lambda v: (Variable(v, Bint[2]) if isinstance(v, str) and v != "T" else
+                            Number(0, 2) if v == 0 else Tensor(np.array([1, 0]), OrderedDict(c=Bint[2]), 2))
+            try:
+                with lazy:
+                    res = node.eager_subs(tuple((k, fv(v)) for k, v in pairs))
+            except DECLINE as ex:
+                ctx.count(f"S7:{label}:eager_subs-raised:{type(ex).__name__}")
+                continue
+            if res is None:
+                obs = "declined"
+            else:
+                # (a lazily built Subs alpha-mangles its own keys, and with them the visible names of its argument:
+                #  compared modulo that renaming)
+                um = lambda x: x.split("__BOUND")[0]
+                inner, lz = (res.arg, sorted(um(k) for k in res.subs)) if isinstance(res, Subs) else (res, [])
+                if label == "markov":
+                    obs = (sorted((k, um(v)) for k, v in inner.step_names.items()), lz)
+                else:
+                    obs = (sorted(zip([k for k, _ in node.subs], [um(k) for k, _ in inner.subs])), lz)
+            sig_w = [[Q(k), (Q(v) if isinstance(v, str) and v != "T" else "none")] for k, v in pairs]
+            reqs.append(f"C04 mpdecide {sx([[Q(b_), Q(v_)] for b_, v_ in sn])} {sx(sig_w)}")
+            meta.append(("mpdecide", {"stream": f"S7.{label}", "sigma": pairs}, None, obs, None, None))
+    if not reqs:
+        return
+    answers = ctx.driver.ask(reqs)
+    spec_tab = None
+    for (kind, wit, py, r, ins, renv), ans in zip(meta, answers):
+        if kind == "mpdecide":
+            if not ans.startswith("ok"):
+                ctx.infra_errors.append(f"driver: {ans[:200]} for {wit}")
+                continue
+            if ans.strip() == "ok declined":
+                mobs = "declined"
+            else:
+                t = parse_sx("(" + ans[3:] + ")")
+                mobs = (sorted((str(k), str(v)) for k, v in t[0]), sorted(str(x) for x in t[1]))
+            if mobs != r:
+                ctx.fail("correspondence", f"C04.S7.{wit['stream'][3:]}.eager_subs-decision", witness=wit, expected=str(mobs), got=str(r))
+            else:
+                ctx.count(f"{wit['stream'].replace('.', ':')}:decision-identical:{'declined' if r == 'declined' else 'renamed'}")
+                ctx.case(nontrivial_key=(wit["stream"], repr(wit["sigma"])))
+            continue
+        fam = kind.split("-")[0]
+        if kind.endswith("-spec"):
+            spec_tab = ser.parse_table(ans)
+            if spec_tab is None:
+                ctx.infra_errors.append(f"driver: {ans[:200]} for {wit}")
+                continue
+            if any(c is None for c in spec_tab):
+                ctx.count(f"S7:{fam}:spec-undefined")
+                spec_tab = None
+                continue
+            if r is None:
+                continue
+            try:
+                st, cells = value_over(r, ins, renv)
+            except (KeyError, ValueError) as ex:
+                ctx.fail("input", f"C04.S7.{fam}.inputs", witness=wit, expected=str(ins), got=str(ex), python=py)
+                continue
+            except DECLINE:
+                ctx.count(f"S7:{fam}:eval-declined")
+                continue
+            if st != "value" or cells is None:
+                ctx.count(f"S7:{fam}:lazy-result")
+                continue
+            ok, bad = tables_match(cells, spec_tab)
+            if not ok:
+                ctx.fail("input", f"C04.S7.{fam}.value", witness=dict(wit, real_env={k: np.asarray(v).tolist() for k, v in renv.items()}),
+                         expected=str(spec_tab[bad] if bad is not None and bad >= 0 else spec_tab)[:300],
+                         got=str(cells[bad] if bad is not None and bad >= 0 else cells)[:300], python=py)
+                continue
+            ctx.count(f"S7:{fam}:impl-eq-spec")
+            ctx.case(nontrivial_key=("S7", fam, repr(wit), repr(sorted((k, np.asarray(v).tolist()) for k, v in renv.items()))))
+        else:
+            if ans.strip() == "ok declined":
+                ctx.count(f"S7:{fam}:model-declined" + (":impl-returned" if r is not None else ":impl-declined"))
+                continue
+            tab = ser.parse_table(ans)
+            if tab is None:
+                ctx.infra_errors.append(f"driver: {ans[:200]} for {wit}")
+                continue
+            if spec_tab is None:
+                continue
+            if not _tables_same(tab, spec_tab):
+                ctx.fail("correspondence", f"C04.S7.{fam}.model-vs-spec (eager_subs model theorem echo)", witness=wit,
+                         expected=str(spec_tab)[:300], got=str(tab)[:300])
+            else:
+                ctx.count(f"S7:{fam}:model-eq-spec")
+
+
 def run_s5(ctx, n, use_lean=True):
     for _ in range(n):
         if ctx.rng.random() < 0.8:
@@ -2030,7 +2313,11 @@ RULE = ("S1: exhaustive sigma-shapes (18 descriptors per input: none, number, va
         "term model): Gaussians with 2-4 real inputs (scalars / small vectors) + 0-2 batch inputs and Deltas, dyadic "
         "parameters, sigma in every order of the pairs through g(**kw) and a directly built Subs, chained with a non-affine "
         "lazy first step, fused and fused-reversed, vs the explicit formula; partial real substitutions additionally tied "
-        "to the Lean model of _eager_subs_real (ordered pairs). S3: exhaustive boxes for Slice-into-Slice, Cat/Stack "
+        "to the Lean model of _eager_subs_real (ordered pairs). S6 (python oracles): Independent, Constant, lazy MarkovProduct/"
+        "Scatter. S7 (Lean models): Deltas with 1-2 names (hit/miss/tensor values, renamings incl. swaps and collisions, batch "
+        "index/rename, shuffled pairs) vs `deltasubs` and denote; Independent (7 value kinds x 3 batch substitutions) vs "
+        "`indepsubs`; the eager_subs decision of MarkovProduct/Scatter exhaustively over 6x6 sigma-shapes x both pair orders "
+        "vs `mpdecide`. S3: exhaustive boxes for Slice-into-Slice, Cat/Stack "
         "with Slice/Number. Non-trivial = at least one non-number value; distinct by full content.")
 
 
@@ -2042,6 +2329,7 @@ def correspond(ctx):
     run_s2(ctx, 4000 if ctx.tier == "quick" else 60000)
     run_s5(ctx, 500 if ctx.tier == "quick" else 8000)
     run_s6(ctx)
+    run_s7(ctx)
     ctx.extra["beyond_model_spec_only"] = ("stream S5 (Gaussian/Delta substitution) is compared with the explicit formula "
                                            "-1/2||xP-w||^2 / point-mass in numpy only: exploration, not tied to a Lean model")
     ctx.assumptions.append("a Tensor has only scalar Bint inputs (Tensor.__init__ asserts `d.dtype == size` per input, tensor.py:143-144; "
@@ -2049,7 +2337,11 @@ def correspond(ctx):
                            "real arrays are substituted for Variables (S2: Reals[n] inputs read through sum/getitem), Gaussian/Delta inputs (S5) and "
                            "Independent's reals_var (S6)")
     ctx.assumptions.append("numpy basic/advanced indexing is modelled by its index-level specification (composition of index functions)")
-    ctx.assumptions.append("Gaussian/Delta eager_subs are checked against the explicit numpy formula only (stream S5, no Lean model: C12/C14 own those models); Independent/Scatter/MarkovProduct eager_subs are outside the C04 harness")
+    ctx.assumptions.append("Delta.eager_subs (renaming / ground value -> density; NOT the solve() branch that inverts a value with real inputs: "
+                           "C14), Independent.eager_subs and the rename/decline decision of MarkovProduct/Scatter.eager_subs have executable Lean "
+                           "models tied in stream S7 (values vs the shared denote; decisions exactly); Gaussian._eager_subs_real is tied through "
+                           "`gsubs` (S5); the other Gaussian branches (affine, int, var) and the values of MarkovProduct/Scatter/Constant are checked "
+                           "against python oracles only (S5/S6: spec-only)")
 
 
 def search(ctx, broken):
